@@ -19,31 +19,31 @@ fn follow_check(mode: TraversalMode) {
     let s = walk_a(0, 0, mode, 0, false, false, true);
     let mut node = 1;
     while node < N {
-        let expect = if node == 8 { 0 } else { 1 };      // 8 is the target directory itself: its CONTENT (9) is listed; all four links are listed
+        let expect = if node == 8 { 0 } else { 1 };      // 8 is the target directory itself: its CONTENT (9) is listed; all five links are listed
         assert!(count(&s, node as u8) == expect, "OBL C18.walk.follow: every entry under the root or behind a link is listed exactly once");
         node += 1;
     }
-    assert!(s.n == 10, "OBL C18.walk.follow: nothing else is listed (a link to an ancestor does not replay the ancestor; a link to a file and a dangling link are just listed)");
+    assert!(s.n == 11, "OBL C18.walk.follow: nothing else is listed (a link to an ancestor or to the root itself does not replay it; a link to a file and a dangling link are just listed)");
     assert!(s.error_count == 0, "OBL C18.walk.follow: no error when nothing is unreadable (relative target resolved against the directory of the link)");
 }
 #[kani::proof]
-#[kani::unwind(13)]
+#[kani::unwind(14)]
 fn c18_walk_follow_bfs() { kani::cover!(true); follow_check(TraversalMode::Bfs); }
 #[kani::proof]
-#[kani::unwind(13)]
+#[kani::unwind(14)]
 fn c18_walk_follow_dfs() { kani::cover!(true); follow_check(TraversalMode::Dfs); }
 // without the option no row comes from behind a link: links are listed, not followed
 #[kani::proof]
-#[kani::unwind(13)]
+#[kani::unwind(14)]
 fn c18_walk_nofollow() {
     kani::cover!(true);
     let s = walk(0, 0, TraversalMode::Bfs, 0, false);
-    assert!(s.n == 9 && count(&s, 6) == 1 && count(&s, 7) == 1 && count(&s, 10) == 1 && count(&s, 11) == 1 && count(&s, 8) == 0 && count(&s, 9) == 0, "OBL C18.walk.nofollow: links are listed once, nothing behind them");
+    assert!(s.n == 10 && count(&s, 6) == 1 && count(&s, 7) == 1 && count(&s, 10) == 1 && count(&s, 11) == 1 && count(&s, 12) == 1 && count(&s, 8) == 0 && count(&s, 9) == 0, "OBL C18.walk.nofollow: links are listed once, nothing behind them");
     assert!(s.error_count == 0, "OBL C18.walk.nofollow: no error");
 }
 #[kani::proof]
-#[kani::unwind(13)]
+#[kani::unwind(14)]
 fn canary_walk18_must_fail() {
     let s = walk(0, 1, TraversalMode::Bfs, 0, false);
-    assert!(s.n == 9, "CANARY must fail");
+    assert!(s.n == 10, "CANARY must fail");
 }
